@@ -43,9 +43,12 @@ enum ActKind : uint8_t {
 	ACT_PLAN_APPEND,  // x = origin, y = destination, pay
 	ACT_PLAN_CLEAR,
 	ACT_PLAN_REMOVE,  // x = mask
+	ACT_REQUEST_REL,  // request the state (own id + 1 + x) mod N -- lets one sticky action ping-pong between states forever
 	ACT_COUNT
 };
-static constexpr uint8_t ACT_CHAIN = 0x80;  // next action belongs to the same callback (max 3 per callback)
+static constexpr uint8_t ACT_CHAIN = 0x80;   // next action belongs to the same callback (max 3 per callback)
+static constexpr uint8_t ACT_STICKY = 0x40;  // the action cursor does not advance: every further callback of this operation repeats this action
+static constexpr uint8_t ACT_KIND_MASK = 0x3F;
 
 enum Scenario : uint8_t { SC_FREE = 0, SC_REPLICA = 1, SC_FORK = 2, SC_COUNT };
 
@@ -124,8 +127,8 @@ inline const char* opName(uint8_t code) {
 	return n[code % OP_COUNT];
 }
 inline const char* actName(uint8_t kind) {
-	static const char* n[] = {"-", "request", "cancel", "succeed()", "fail()", "succeed(id)", "fail(id)", "plan.append", "plan.clear", "plan.remove"};
-	return n[(kind & 0x7F) % ACT_COUNT];
+	static const char* n[] = {"-", "request", "cancel", "succeed()", "fail()", "succeed(id)", "fail(id)", "plan.append", "plan.clear", "plan.remove", "request+"};
+	return n[(kind & ACT_KIND_MASK) % ACT_COUNT];
 }
 
 // raw rendering (before normalisation against a machine); the trace rendering shows the executed form
@@ -136,7 +139,7 @@ inline std::string render(const Case& c) {
 	s += b;
 	if (!c.ctor.empty()) {
 		s += "  [ctor] acts:";
-		for (const Action& a : c.ctor) { snprintf(b, sizeof b, " %s(%u,%u,p%u)%s", actName(a.kind), a.x, a.y, a.pay, (a.kind & ACT_CHAIN) ? "+" : ";"); s += b; }
+		for (const Action& a : c.ctor) { snprintf(b, sizeof b, " %s(%u,%u,p%u)%s", actName(a.kind), a.x, a.y, a.pay, (a.kind & ACT_STICKY) ? ((a.kind & ACT_CHAIN) ? "*+" : "*;") : ((a.kind & ACT_CHAIN) ? "+" : ";")); s += b; }
 		s += "\n";
 	}
 	for (size_t i = 0; i < c.ops.size(); ++i) {
@@ -146,7 +149,7 @@ inline std::string render(const Case& c) {
 		if (!op.acts.empty()) {
 			s += "  acts:";
 			for (const Action& a : op.acts) {
-				snprintf(b, sizeof b, " %s(%u,%u,p%u)%s", actName(a.kind), a.x, a.y, a.pay, (a.kind & ACT_CHAIN) ? "+" : ";");
+				snprintf(b, sizeof b, " %s(%u,%u,p%u)%s", actName(a.kind), a.x, a.y, a.pay, (a.kind & ACT_STICKY) ? ((a.kind & ACT_CHAIN) ? "*+" : "*;") : ((a.kind & ACT_CHAIN) ? "+" : ";"));
 				s += b;
 			}
 		}
